@@ -64,10 +64,18 @@ package hmac
 //@   at call AccessContext.GetClientID : assert recv == ret(base.AccessContextFromContext)[0]
 //@   at call Hash.IsEqual : assert sameslice(arg[0], data) && sameslice(arg[1], ret(AccessContext.GetClientID)[0]) && arg[2] == p.hmacStore
 
+// A value whose hash does not match (or that could not be decrypted) is handed to the client as it was stored: the
+// processor returns the copy it saved when the value came in. The proxies keep that slice until the whole row is written,
+// so the saved copy of one column is never reused for the next: a new value gets a new buffer and the bytes of the
+// previously saved one stay as they are.
 //@ func (p *Processor) OnColumn(ctx context.Context, data []byte) (outCtx context.Context, out []byte, err error)
 //@   props C03 C09 C14
 //@   safety
 //@   ensures err == nil
+//@   ensures damaged-value-handed-back-as-stored: ret(Processor.Process)[1] != nil ==> sameslice(out, p.rawData)
+//@   ensures previously-saved-value-keeps-its-bytes: eqold(old(p.rawData), old(p.rawData))
+//@   ensures new-value-new-buffer: called(EnvelopeMatcher.Match) && ret(EnvelopeMatcher.Match)[0] ==> fresh(p.rawData) && eqbytes(p.rawData, data) && sameslice(out, data[len(p.hashData):]) && sameslice(p.hashData, p.rawData[:len(p.hashData)])
+//@   ensures input-not-written: eqold(data, data)
 
 //@ func (e *SearchableDataEncryptor) EncryptWithClientID(clientID []byte, data []byte, settingCE config.ColumnEncryptionSetting) (out []byte, err error)
 //@   props C01 C02 C09 C14
